@@ -4,28 +4,28 @@
    TimerFuture::poll: removes its own id from the set (and then reports Cleared); the future is polled when its
    task is first run and when the shell resolves its request - never because of clear().
    Executable definitions only. *)
-From Coq Require Import List Arith Bool.
+From Coq Require Import List Arith Bool NArith.
 Import ListNotations.
 
 Record timers : Type := mkTimers {
-  tm_pending : list nat;    (* timers whose task is still waiting for the shell *)
-  tm_cleared : list nat;    (* CLEARED_TIMER_IDS *)
-  tm_next : nat;            (* get_timer_id's counter *)
-  tm_stale : list nat }.    (* ghost: ids cleared while no task was waiting on them *)
+  tm_pending : list N;    (* timers whose task is still waiting for the shell *)
+  tm_cleared : list N;    (* CLEARED_TIMER_IDS *)
+  tm_next : N;              (* get_timer_id's counter *)
+  tm_stale : list N }.    (* ghost: ids cleared while no task was waiting on them *)
 
-Definition timers_init (first : nat) : timers := mkTimers [] [] first [].
+Definition timers_init (first : N) : timers := mkTimers [] [] first [].
 
 Inductive taction : Type :=
 | TSet                     (* notify_after / notify_at, task polled once (request sent) *)
-| TClear (id : nat)        (* clear(id) *)
-| TRespond (id : nat).     (* the shell resolves the timer's request; its task is polled and finishes *)
+| TClear (id : N)        (* clear(id) *)
+| TRespond (id : N).     (* the shell resolves the timer's request; its task is polled and finishes *)
 
-Definition mem (x : nat) (l : list nat) : bool := existsb (Nat.eqb x) l.
-Definition remove_id (x : nat) (l : list nat) : list nat := filter (fun y => negb (Nat.eqb x y)) l.
+Definition mem (x : N) (l : list N) : bool := existsb (N.eqb x) l.
+Definition remove_id (x : N) (l : list N) : list N := filter (fun y => negb (N.eqb x y)) l.
 
 Definition tstep (t : timers) (a : taction) : timers :=
   match a with
-  | TSet => mkTimers (tm_pending t ++ [tm_next t]) (tm_cleared t) (S (tm_next t)) (tm_stale t)
+  | TSet => mkTimers (tm_pending t ++ [tm_next t]) (tm_cleared t) (N.succ (tm_next t)) (tm_stale t)
   | TClear id =>
       mkTimers (tm_pending t) (if mem id (tm_cleared t) then tm_cleared t else id :: tm_cleared t) (tm_next t)
                (if mem id (tm_pending t) || mem id (tm_stale t) then tm_stale t else id :: tm_stale t)
